@@ -1,7 +1,9 @@
 package main
 
 import (
+	"encoding/json"
 	"io"
+	"sync"
 
 	"github.com/getkin/kin-openapi/openapi3filter"
 )
@@ -46,6 +48,7 @@ func c08hRun(c *Case) []any {
 	var tc struct {
 		Resps []c08Case  `json:"resps"`
 		Steps []c08hStep `json:"steps"`
+		Conc  bool       `json:"conc"`
 	}
 	c.Decode(&tc)
 	var raw map[string]any
@@ -65,6 +68,10 @@ func c08hRun(c *Case) []any {
 	}
 	line["doc"] = "ok"
 	line["sent"] = sent
+	if tc.Conc {
+		line["conc"] = c08hConcurrent(tc.Resps)
+		return []any{line}
+	}
 	obs := []any{}
 	for _, st := range tc.Steps {
 		if st.R < 1 || st.R > len(ins) {
@@ -97,6 +104,79 @@ func c08hRun(c *Case) []any {
 	}
 	line["rest"] = rest
 	return []any{line}
+}
+
+// c08hConcurrent validates the responses concurrently for a number of rounds -- one goroutine per response, released
+// together; in round k goroutine i validates a fresh input of response i and then reads back the body of ITS input of
+// round k-1 (a handler still streaming one body while other responses are being validated).  It returns per response the
+// DISTINCT outcomes {v: verdict, b: bytes read back} in order of first appearance.
+func c08hConcurrent(resps []c08Case) []any {
+	const rounds = 40
+	seen := make([][]any, len(resps))
+	keys := make([]map[string]bool, len(resps))
+	for i := range keys {
+		keys[i] = map[string]bool{}
+	}
+	var mu sync.Mutex
+	record := func(i int, o map[string]any) {
+		kb, _ := json.Marshal(o)
+		mu.Lock()
+		if !keys[i][string(kb)] {
+			keys[i][string(kb)] = true
+			seen[i] = append(seen[i], o)
+		}
+		mu.Unlock()
+	}
+	readBack := func(in *openapi3filter.ResponseValidationInput) map[string]any {
+		var rd map[string]any
+		if p, _ := guard(func() { rd = c08hRead(in, 0) }); p {
+			rd = map[string]any{"x": "panic"}
+		}
+		return rd
+	}
+	var prev []*openapi3filter.ResponseValidationInput
+	var prevV []string
+	for round := 0; round <= rounds; round++ {
+		var ins []*openapi3filter.ResponseValidationInput
+		if round < rounds {
+			ins = make([]*openapi3filter.ResponseValidationInput, len(resps))
+			for i := range resps {
+				in, _, err := c08Build(&resps[i])
+				if err != nil {
+					return []any{[]any{map[string]any{"x": "doc_error"}}}
+				}
+				ins[i] = in
+			}
+		}
+		vs := make([]string, len(resps))
+		start := make(chan struct{})
+		var wg sync.WaitGroup
+		for i := range resps {
+			wg.Add(1)
+			go func(i int) {
+				defer wg.Done()
+				<-start
+				if ins != nil {
+					vs[i] = c08Validate(ins[i])
+				}
+				if prev != nil {
+					o := map[string]any{"v": prevV[i]}
+					for k, v := range readBack(prev[i]) {
+						o[k] = v
+					}
+					record(i, o)
+				}
+			}(i)
+		}
+		close(start)
+		wg.Wait()
+		prev, prevV = ins, vs
+	}
+	out := []any{}
+	for i := range seen {
+		out = append(out, seen[i])
+	}
+	return out
 }
 
 func init() {
